@@ -52,6 +52,15 @@ def run(tier: str) -> int:
             return rep.finish()
         tables = json.loads(out.read_text())
         unbounded_laws(rep, wd)
+        # concretisation: the model's version components 0 < 1 < 2 stand for 0 < 9 < 10 (the order of numbers with
+        # different digit counts is not the order of their text)
+        vm = {0: 0, 1: 9, 2: 10}
+
+        def cv(v):
+            return [vm[x] for x in v]
+        for p_ in tables["pairs"]:
+            p_["ref"][2] = cv(p_["ref"][2])
+        # (the registry machine works on concrete versions already: MC_PluginOrder!RegVersions*)
 
         # ---- pair table vs real PluginRef objects
         def mk(ref):
